@@ -38,8 +38,10 @@ def main():
     os.dup2(devnull, 1)
     os.dup2(devnull, 2)
     # perturb the heap so that object addresses (hence the iteration order of sets of ast nodes) differ
-    junk = [object() for _ in range(int(job.get("junk", 0)))]
-    junk2 = [bytearray(37 * (i % 11 + 1)) for i in range(int(job.get("junk", 0)) // 7)]
+    import random
+    jr = random.Random(int(job.get("junk", 0)))
+    junk = [[bytes(size) + b"" for _ in range(jr.randint(0, 40))] for size in range(0, 520, 8)]
+    junk2 = [object() for _ in range(jr.randint(0, 2000))] + [{} for _ in range(jr.randint(0, 60))]
     import pyrefact  # noqa
     from pyrefact import logs
     logs.set_level(100)
